@@ -97,6 +97,25 @@ def gen_indep(rng, tier):
     return gen_pd(rng, tier, independent=True)
 
 
+def gen_degenerate(rng, tier):
+    """every stratum has a single level of X or of Y: pooled degrees of freedom 0, no evidence against independence"""
+    case = gen_pd(rng, tier)
+    if not case["kz"]:
+        case["kz"] = [2]
+        for r in case["rows"]:
+            r.append(rng.randrange(2))
+    kz = case["kz"]
+    for r in case["rows"]:
+        s = core.ravel(kz, r[2:])
+        if s % 2 == 0:
+            r[0] = s % case["kx"]          # X constant in this stratum
+        else:
+            r[1] = s % case["ky"]          # Y constant in this stratum
+    case["lam"] = rng.choice(["pearson", "chi_square", "g_sq", "log-likelihood", "cressie-read"])
+    case["degenerate"] = True
+    return case
+
+
 def make_df(case):
     import pandas as pd
     cols = ["X", "Y"] + [f"Z{i}" for i in range(len(case["kz"]))]
@@ -226,5 +245,6 @@ def run_pr(case, drv):
 STREAMS = [
     Stream("power_divergence", gen_pd, run_pd, quick=900, thorough=9000),
     Stream("independent", gen_indep, run_pd, quick=200, thorough=2000),
+    Stream("degenerate", gen_degenerate, run_pd, quick=120, thorough=1200),
     Stream("pearsonr", gen_pr, run_pr, quick=300, thorough=3000),
 ]
